@@ -554,16 +554,16 @@ Proof.
         rewrite (existsb_eqb_true _ _ CHK). rewrite NEWT, TH, ES.
         unfold M_Pickle.set_state. rewrite <- (app_nil_r st) at 1. rewrite SS.
         unfold M_Pickle.update_dict. rewrite LEN. rewrite Nat.leb_refl. reflexivity.
-      * split; [apply set_all_type|]. split; [|exact ATTR].
-        rewrite set_all_dict. unfold M_Pickle.new_obj. simpl. rewrite HDICT. reflexivity.
+      * split; [rewrite set_all_type; reflexivity|]. split; [|exact ATTR].
+        rewrite set_all_dict. unfold M_Pickle.new_obj. simpl. rewrite HDICT. symmetry. exact OD.
     + eexists. eexists. split; [reflexivity|]. split.
       * unfold M_Pickle.load. simpl rv_owner. simpl rv_type. simpl rv_chk. simpl rv_arg_state. simpl rv_state.
         unfold M_Pickle.unpickle. fold h. unfold all_names in A. unfold all_names. rewrite A.
         rewrite (existsb_eqb_true _ _ CHK).
         unfold M_Pickle.set_state. rewrite <- (app_nil_r st) at 1. rewrite SS.
         unfold M_Pickle.update_dict. rewrite LEN. rewrite Nat.leb_refl. reflexivity.
-      * split; [apply set_all_type|]. split; [|exact ATTR].
-        rewrite set_all_dict. unfold M_Pickle.new_obj. simpl. rewrite HDICT. reflexivity.
+      * split; [rewrite set_all_type; reflexivity|]. split; [|exact ATTR].
+        rewrite set_all_dict. unfold M_Pickle.new_obj. simpl. rewrite HDICT. symmetry. exact OD.
   - (* non-empty dict: appended to the state, restored by __setstate__ *)
     assert (HDICT : has_dict (o_type atom cv o) = true) by (apply HDT; discriminate).
     eexists. eexists. split; [reflexivity|]. split.
@@ -577,7 +577,7 @@ Proof.
       rewrite nth_error_app2 by lia. rewrite LEN, Nat.sub_diag. simpl nth_error. simpl truthy.
       rewrite set_all_dict. unfold M_Pickle.new_obj at 1. simpl o_dict. rewrite HDICT.
       rewrite dict_update_nil. reflexivity.
-    + split; [simpl; apply set_all_type|]. split; [reflexivity|]. simpl. exact ATTR.
+    + split; [simpl; rewrite set_all_type; reflexivity|]. split; [simpl; symmetry; exact OD|]. simpl. exact ATTR.
   - (* no dict *)
     assert (HDICT : has_dict (o_type atom cv o) = false) by (apply HDF; reflexivity).
     destruct (any_notnone atom (all_members h) st) eqn:AN.
@@ -587,16 +587,16 @@ Proof.
         rewrite (existsb_eqb_true _ _ CHK). rewrite NEWT, TH, ES.
         unfold M_Pickle.set_state. rewrite <- (app_nil_r st) at 1. rewrite SS.
         unfold M_Pickle.update_dict. rewrite LEN. rewrite Nat.leb_refl. reflexivity.
-      * split; [apply set_all_type|]. split; [|exact ATTR].
-        rewrite set_all_dict. unfold M_Pickle.new_obj. simpl. rewrite HDICT. reflexivity.
+      * split; [rewrite set_all_type; reflexivity|]. split; [|exact ATTR].
+        rewrite set_all_dict. unfold M_Pickle.new_obj. simpl. rewrite HDICT. symmetry. exact OD.
     + eexists. eexists. split; [reflexivity|]. split.
       * unfold M_Pickle.load. simpl rv_owner. simpl rv_type. simpl rv_chk. simpl rv_arg_state. simpl rv_state.
         unfold M_Pickle.unpickle. fold h. unfold all_names in A. unfold all_names. rewrite A.
         rewrite (existsb_eqb_true _ _ CHK).
         unfold M_Pickle.set_state. rewrite <- (app_nil_r st) at 1. rewrite SS.
         unfold M_Pickle.update_dict. rewrite LEN. rewrite Nat.leb_refl. reflexivity.
-      * split; [apply set_all_type|]. split; [|exact ATTR].
-        rewrite set_all_dict. unfold M_Pickle.new_obj. simpl. rewrite HDICT. reflexivity.
+      * split; [rewrite set_all_type; reflexivity|]. split; [|exact ATTR].
+        rewrite set_all_dict. unfold M_Pickle.new_obj. simpl. rewrite HDICT. symmetry. exact OD.
 Qed.
 
 (* the state written by reduce is the member list in sorted order, followed by the dict if any *)
